@@ -116,7 +116,13 @@ def pairs_of_insert_arg(arg):
         isinstance(arg[0], str) or not isinstance(arg[0], abc.Sequence)
     ):
         return [tuple(arg)]
-    return [tuple(p) for p in arg]
+    out = []
+    for p in arg:
+        # every element must be a pair; otherwise the whole insert is refused
+        if isinstance(p, str) or not isinstance(p, abc.Sequence) or len(p) != 2:
+            raise TypeError("not a pair")
+        out.append(tuple(p))
+    return out
 
 
 def apply_model(m: Model, op):
